@@ -25,7 +25,7 @@ NameOK(fmt, strict, n) ==
   /\ CASE fmt = "fasta" -> n[1] # 62
        [] fmt = "phylip" -> (strict => Len(n) <= 10)
        [] fmt = "nexus" -> (\A i \in 1..Len(n) : n[i] \notin {91, 93, 59, 61}) /\ LoS(n) \notin NexusKeywords
-       [] fmt = "clustal" -> ~(Len(n) >= 7 /\ LoS(SubSeq(n, 1, 7)) = ClustalWord)
+       [] fmt = "clustal" -> LoS(n) \notin {ClustalWord, ClustalWord \o <<119>>}      \* exactly the header words CLUSTAL / CLUSTALW
        [] fmt = "stockholm" -> (\A i \in 1..Len(n) : n[i] \notin {91, 93, 59, 61}) /\ n[1] # 35 /\ n # <<47, 47>>
                                /\ LoS(n) # <<115, 116, 111, 99, 107, 104, 111, 108, 109>>      \* the word of the header line
 \* residues: printable; '.' is the match character of Nexus and a gap in Stockholm (translated on reading)
